@@ -978,6 +978,8 @@ class GenEval(AutoEvaluator):
             if target.id in self.pinned:
                 return
             self.env[target.id] = v
+            if symname(v) == "F1all":
+                self.trace.append(("bind", target.id, "F1all"))
             sc = sem.split_call(v) if (v is not None and not is_unknown(v) and not isinstance(v, tuple)) else None
             if sc is not None and sc[0].split(".")[-1] == "SimpleNamespace" and not sc[1]:
                 for k, val in sc[2].items():
